@@ -3,6 +3,8 @@ package props
 import (
 	"strings"
 
+	"verif/checker/internal/gen"
+
 	"verif/checker/internal/skel"
 	"verif/checker/internal/tmpl"
 )
@@ -50,6 +52,11 @@ func init() {
 		c.Run.Floor("K-NILFUNC/stub-branch", 2)
 		c.RunSkeletons(SkelOpts{Rules: []string{"K-NILFUNC", "K-RECORD/every-path", "K-RECORD/before-callback", "G-DATA/flags", "G-DATA/results", "G-SCOPE/shared"}})
 		flagFlow(c, "stub")
+		// the result variables of the -stub branch are allocated like parameters, in the same scope, and the
+		// builtin panic of the default branch must not be shadowed by a parameter
+		if na := gen.CheckAddVar(c.Run, c.Prog); na != nil {
+			gen.CheckReserved(c.Run, c.Prog, na, freeNameList(c, "G-RESERVED"), false)
+		}
 	})
 	register("C08", "other", func(c *Ctx) {
 		skeletonExplain(c, "C08 (reset API only on request, clears exactly what it names): the method set of every mock is {M, MCalls} for each M, plus {ResetMCalls for each M, ResetCalls} iff with-resets (every other flag combination); ResetMCalls writes nil, unconditionally and under the write lock, to exactly the slice its method appends to and reads nothing; ResetCalls does so for the slices of all methods; clearing is `= nil`, never a re-slice. The flag's way from the command line to the template data is checked as an identity flow on the generator's source (G-FLAGS).")
